@@ -31,7 +31,7 @@ def run_case(ctx, f, instance, names, pre, outcome):
     cur = {"a": Obj("current_value_of_a"), "b": Obj("current_value_of_b"), "e": False}
     e_prev, w_prev, w_new, e_new = Obj("event_queued_before"), Obj("watcher_queued_before"), Obj("watcher_queued_by_trigger"), Obj("event_queued_by_trigger")
     inst = Obj("instance", _param__private=Obj("private", initialized=True)) if instance else None
-    ns = Obj("ns", self=inst, _TRIGGER=False, _events=[e_prev] if pre else [], _state_watchers=[w_prev] if pre else [],
+    ns = Obj("ns", self=inst, _TRIGGER=False, _BATCH_WATCH=outcome in ("queues", "raises-after-queueing"), _events=[e_prev] if pre else [], _state_watchers=[w_prev] if pre else [],
              __getitem__=dict(known), __contains__=list(known), __iter__=list(known))
     seen = {"updates": [], "syncing": []}
 
@@ -109,7 +109,8 @@ def model(ctx):
             want_e = ([e_new] if queued else []) + ([e_prev] if pre else [])
             want_w = ([w_prev] if pre else []) + ([w_new] if queued else [])
         if sorted(id(x) for x in ev_q) != sorted(id(x) for x in want_e):
-            (problems["C05"] if outcome.startswith("raises") or unknown else problems["C04"]).append(
+            for tgt_ in (["C05", "C04"] if unknown else ["C05"] if outcome.startswith("raises") else ["C04"]):
+              problems[tgt_].append(
                 "%s: the event queue holds %s on exit, specification %s (events queued before the trigger must survive it, also when it fails)" % (
                     desc, [x.name for x in ev_q], [x.name for x in want_e]))
         if len({id(x) for x in w_q}) != len(w_q):
